@@ -123,12 +123,60 @@ def sweep_fill_text(tier, viol, stats):
                 viol.append({"clause": "no_wrap", "function": "fill_text", "input": {"text": text, "width": 0}, "got": out0})
 
 
+MARKERS = ["-", "*", "+", ">", "#", "##", "1.", "2)"]
+
+
+def sweep_markers(tier, viol, stats):
+    """Markdown mode with words that look like block markers (they get a backslash at a line start)"""
+    from flowmark.linewrapping.text_wrapping import simple_word_splitter, wrap_paragraph_lines
+    fill = ["aa", "bbbb", "c", "ddddd", "eee"]
+    for m in MARKERS:
+        for pos in range(1, 5):
+            for tail in range(0, 4):
+                words = fill[:pos] + [m] + fill[pos:pos + tail]
+                text = " ".join(words)
+                for width in range(3, 14):
+                    for c1 in (0, 2):
+                        lines = wrap_paragraph_lines(text, width, 0, c1, splitter=simple_word_splitter, is_markdown=True)
+                        stats["evals"] += 1
+                        for b in check_lines(words, lines, width, 0, c1, True):
+                            viol.append({"clause": b, "function": "wrap_paragraph_lines",
+                                         "input": {"words": words, "width": width, "initial_column": 0, "subsequent_offset": c1,
+                                                   "is_markdown": True}, "got": lines})
+
+
+def sweep_plaintext(tier, viol, stats):
+    """plaintext mode through the text API: one line per paragraph at width <= 0, bounded lines otherwise"""
+    from flowmark.reformat_api import reformat_text
+    for lv in itertools.product((1, 3, 6), repeat=3):
+        w1, w2 = mkwords(lv), mkwords(lv[::-1])
+        text = "  ".join(w1[:2]) + "\n" + w1[2] + "\n\n" + "\n".join(w2) + "\n"
+        for width in (0, -1):
+            out = reformat_text(text, width=width, plaintext=True)
+            stats["evals"] += 1
+            if out.strip("\n").split("\n\n") != [" ".join(w1), " ".join(w2)]:
+                viol.append({"clause": "no_wrap", "function": "reformat_text(plaintext)", "input": {"text": text, "width": width}, "got": out})
+        for width in (4, 7, 12):
+            out = reformat_text(text, width=width, plaintext=True)
+            stats["evals"] += 1
+            paras = out.strip("\n").split("\n\n")
+            if len(paras) != 2:
+                viol.append({"clause": "fill_text.paragraphs", "function": "reformat_text(plaintext)", "input": {"text": text, "width": width}, "got": out})
+                continue
+            for ws, p in zip((w1, w2), paras):
+                for b in check_lines(ws, p.split("\n"), width, 0, 0, False):
+                    viol.append({"clause": b, "function": "reformat_text(plaintext)",
+                                 "input": {"words": ws, "width": width, "initial_column": 0, "subsequent_offset": 0}, "got": p})
+
+
 def bounded(tier, seed):
     rnd = random.Random(seed)
     viol, stats = [], {"evals": 0, "distinct": set()}
     sweep_w(tier, viol, stats)
     sweep_wrappers(tier, viol, stats, rnd)
     sweep_fill_text(tier, viol, stats)
+    sweep_markers(tier, viol, stats)
+    sweep_plaintext(tier, viol, stats)
     return {"evaluations": stats["evals"], "distinct_nontrivial": len(stats["distinct"]), "violations": viol,
             "samples": [{"words": ["a", "bb", "cccc"], "width": 5, "cols": [0, 2], "function": "wrap_paragraph_lines"},
                         {"words": ["a.", "bbb", "cccccc."], "width": 10, "indents": ["- ", "  "], "function": "line_wrap_by_sentence"}],
@@ -146,6 +194,7 @@ def replay(rec):
     viol, stats = [], {"evals": 0, "distinct": set()}
     if "wrap_paragraph" in rec["oid"] or "line_wrap" in rec["oid"]:
         sweep_w("quick", viol, stats)
+        sweep_markers("quick", viol, stats)
         sweep_wrappers("quick", viol, stats, random.Random(0))
     from vfcore.check import load_findings, match_bounded_finding
     known = [f for f in load_findings() if (f.get("property") == "C05" or "C05" in f.get("properties", [])) and f.get("status") == "known"]
